@@ -237,8 +237,12 @@ def _work(chunk, progress=None):
     return out
 
 
-def _child(slot, tasks, results, stop, cur, started):
+def _child(slot, tasks, results, stop, cur, started, phase):
     import queue
+
+    def sink(v, slot=slot):
+        phase[slot] = v
+    C.PHASE_SINK = sink
     while True:
         try:
             cid, chunk = tasks.get(timeout=0.3)
@@ -249,6 +253,7 @@ def _child(slot, tasks, results, stop, cur, started):
 
         def progress(j, slot=slot):
             cur[slot] = j
+            phase[slot] = 0
             started[slot] = time.time()
         try:
             out = _work(chunk, progress)
@@ -269,11 +274,12 @@ def _pool_map(make_chunks, case_timeout=120.0):
     tasks, results, stop = ctx.Queue(), ctx.Queue(), ctx.Event()
     cur = ctx.Array("i", [-1] * n, lock=False)
     started = ctx.Array("d", [0.0] * n, lock=False)
+    phase = ctx.Array("i", [0] * n, lock=False)
     procs = {}
 
     def spawn(slot):
         cur[slot] = -1
-        p = ctx.Process(target=_child, args=(slot, tasks, results, stop, cur, started), daemon=True)
+        p = ctx.Process(target=_child, args=(slot, tasks, results, stop, cur, started, phase), daemon=True)
         p.start()
         procs[slot] = p
     for slot in range(n):
@@ -305,6 +311,8 @@ def _pool_map(make_chunks, case_timeout=120.0):
                     idx = cur[slot]
                     why = "did not terminate within %.0f s" % case_timeout if hung else \
                         "killed the interpreter (exit code %s; GLPK aborts on some inputs)" % p.exitcode
+                    if not hung and phase[slot] == 1:
+                        why = "aborted inside an operation"  # nothing to judge: discarded, counted
                     if idx >= 0:
                         # find the chunk that holds the case, report the case, queue the rest again
                         for cid, ch in list(pending.items()):
@@ -427,6 +435,8 @@ def _evaluate(cases, tier="quick"):
             a[3] += n_det
             a[4] += n_rnd
     failures = _group(found)
+    aborted = [c for c in casualties if c[1] == "aborted inside an operation"]
+    casualties = [c for c in casualties if c[1] != "aborted inside an operation"]
     crashes = {}
     for (idx, fam, case), why in casualties[:12]:
         kind = "crash:" if "killed" in why else "hang:"
@@ -445,6 +455,7 @@ def _evaluate(cases, tier="quick"):
              "by_family": by_family, "raised": sum(r["raised"] for r in results),
              "shrink_exec": sum(r["shrink_exec"] for r in results), "failing": sum(r["failing"] for r in results),
              "invalid": sum(r["invalid"] for r in results), "unjudged": sum(r["unjudged"] for r in results),
+             "aborted": len(aborted),
              "samples": [uniq[i][1] for i in (0, len(uniq) // 2, len(uniq) - 1)] if uniq else []}
     return stats, failures
 
@@ -480,6 +491,7 @@ def _run(tier, seed):
                    "extra_executions_for_shrinking_and_attribution": st["shrink_exec"],
                    "discarded_histories_with_two_solver_objects_of_one_name": st["invalid"],
                    "blocks_entered_with_broken_cross_references_not_compared": st["unjudged"],
+                   "discarded_histories_in_which_GLPK_aborted_inside_an_operation": st["aborted"],
                    "PYTHONHASHSEED": os.environ.get("PYTHONHASHSEED"),
                    "seconds": round(time.time() - t0, 1),
                    "cpu_seconds_of_workers": round(sum(getattr(cpu1, f) - getattr(cpu0, f)
@@ -494,8 +506,12 @@ def _execute_in_child(case, timeout=120.0):
     """run one case in a forked child (a history may kill the interpreter) -> failure text | None"""
     ctx = multiprocessing.get_context("fork")
     recv, send = ctx.Pipe(duplex=False)
+    phase = ctx.Value("i", 0, lock=False)
 
     def target():
+        def sink(v):
+            phase.value = v
+        C.PHASE_SINK = sink
         send.send(C.execute(case)["failure"])
         send.close()
     p = ctx.Process(target=target, daemon=True)
@@ -514,6 +530,8 @@ def _execute_in_child(case, timeout=120.0):
         if got is None:
             return "the history did not terminate within %.0f s" % timeout
     if got is None:
+        if phase.value == 1:
+            return None  # GLPK aborted inside an operation of the history: nothing to judge (run() discards these)
         return "the history killed the interpreter (exit code %s; GLPK aborts on some inputs)" % p.exitcode
     return got[1]
 
